@@ -29,7 +29,7 @@ ASSUMPTIONS = ['a constant all-ones source is not a legal random stream (stdlib 
 REAL = ['smartquery.functions (_rand, _shuffle)', 'stdlib random algorithms (randint, choice, shuffle, random)', 'evaluator']
 STUB = ['entropy source (scripted bits)']
 REACH_PROBES = ('extreme_prefix_consumed', 'rand01', 'rand_ab_literal', 'rand_ab_host_int', 'rand_ab_big', 'rand_ab_equal',
-                'rand_list', 'shuffle', 'shuffle_short_list', 'endpoint_coverage_checked', 'illegal_args', 'standin_then_builtin', 'trailing_zero_bounds', 'names_omitted', 'very_wide_range')
+                'rand_list', 'shuffle', 'shuffle_short_list', 'endpoint_coverage_checked', 'illegal_args', 'standin_then_builtin', 'trailing_zero_bounds', 'names_omitted', 'very_wide_range', 'host_float_bounds', 'draw_after_failed_lambda')
 SIM_TIME = 'logical: entropy draws; no clock in this property'
 
 LITERAL_LISTS = {'lit': '[[1], [2], [3]]', 'hash1': '["#red", "#green", "#blue"]', 'hash2': '["#cyan", "#black"]'}
@@ -75,12 +75,20 @@ def generate(seed, tier):
         if kind == 'rand_ab':
             a, b, bk = _bounds(ro)
             form = weighted(ro, [('literal', 4), ('host_int', 3), ('host_dec', 2), ('host_bool', 0.5 if bk == 'bool' else 0),
-                                 ('literal_dot0', 1.5), ('host_dec_dot00', 1), ('literal_sugar', 1.5)])
+                                 ('literal_dot0', 1.5), ('host_dec_dot00', 1), ('literal_sugar', 1.5), ('host_float', 1.2)])
+            if form == 'host_float':
+                # integer-valued Python floats (exactly representable ones, also far above 2**53)
+                a = int(float(a))
+                b = max(a, int(float(b)))
             if form == 'literal' and (a < 0 or b < 0) and max(len(str(abs(a))), len(str(abs(b)))) > 27:
                 # unary minus on a literal rounds to 28 digits before rand sees it (arithmetic, not rand): hand such
                 # bounds over as host values instead
                 form = 'host_int'
             op.update(a=str(a), b=str(b), form=form, bk=bk)
+            if form in ('host_int', 'host_dec', 'host_float') and rf.random() < 0.15:
+                # earlier in the same program a lambda whose parameter is called like a bound fails; the host callback
+                # that drove it absorbs the error and the program goes on to draw
+                op['failed_lambda'] = rf.choice(['hi', 'lo'])
             if b - a <= 5:
                 op['n'] = max(op['n'], 40 * (b - a + 1))
         elif kind == 'rand_list':
@@ -155,10 +163,24 @@ def execute(case, ctx):
                 # integer-valued numbers written with trailing fractional zeros
                 src = 'map(R, v => rand(%d.0, %d.00))' % (a, b)
             else:
-                conv = {'host_int': int, 'host_dec': Decimal, 'host_bool': bool, 'literal_dot0': Decimal, 'literal_sugar': int,
+                conv = {'host_float': float, 'host_int': int, 'host_dec': Decimal, 'host_bool': bool, 'literal_dot0': Decimal, 'literal_sugar': int,
                         'host_dec_dot00': lambda x: Decimal(str(x) + '.00')}[op['form']]
                 names['lo'], names['hi'] = conv(a), conv(b)
                 src = 'map(R, v => rand(lo, hi))'
+                if op.get('failed_lambda'):
+                    p_ = op['failed_lambda']
+
+                    def attempt(f, *args):
+                        try:
+                            return f(*args)
+                        except Exception:
+                            return None
+                    attempt._sim_kind = 'host:attempt'
+                    names['attempt'] = attempt
+                    names['far'] = conv(b) + 1000 if p_ == 'hi' else conv(a) - 1000
+                    src = 'bad = %s => 1 / (%s - %s)\nattempt(bad, far)\n%s' % (p_, p_, p_, src)
+                    ctx.fault('lambda_failed_under_swallowing_host')
+                    ctx.probe('draw_after_failed_lambda')
         elif kind == 'rand_list':
             src = 'map(R, v => rand(%s))' % LITERAL_LISTS.get(op['list'], op['list'])
         elif kind == 'shuffle':
@@ -212,6 +234,8 @@ def execute(case, ctx):
                 ctx.probe('very_wide_range')
             if a == b:
                 ctx.probe('rand_ab_equal')
+            if op['form'] == 'host_float':
+                ctx.probe('host_float_bounds')
             if op['form'] in ('literal_dot0', 'host_dec_dot00'):
                 ctx.probe('trailing_zero_bounds')
             seen = set()
